@@ -533,6 +533,9 @@ func (e *Engine) Stop() {
 	}
 
 	e.stopListeners()
+	// the core engine closes what its pollers serve; the connections read by
+	// the blocking-mode goroutines are only known here.
+	e.closeAllConns()
 	e.Engine.Stop()
 }
 
